@@ -14,6 +14,7 @@
 from __future__ import annotations
 
 import asyncio
+import itertools
 import json
 import os
 import shutil
@@ -785,6 +786,78 @@ def second_session_case(ctx, workdir: str, transport_kind: str, k: int) -> None:
         ctx.violation(key, what, case)
 
 
+def changed_file_between_sessions_case(ctx, workdir: str, transport_kind: str, variant: str) -> None:
+    """Entering the context loads the file - EVERY time.  Between two sessions on the same Gateway object the file is
+    replaced (a backup restored while the gateway was down) resp. the application empties the registry inside the
+    session; the next entry must pick up the file's nodes, and the final save must write the registry as it is, also
+    when that is empty."""
+    from aiomysensors.gateway import Config, Gateway
+    from aiomysensors.model.node import Child, Node
+    from aiomysensors.persistence import Persistence
+
+    path = os.path.join(workdir, "between.json")
+    prepare_file(path, "present")
+    case = {"engine": "vloop", "changed_file_between_sessions": variant, "transport": transport_kind}
+
+    async def scenario() -> dict:
+        problems = []
+        gateway = Gateway(make_transport(transport_kind, {"mode": "normal"}), Config(persistence_file=path))
+        async with gateway:
+            await asyncio.sleep(1)
+        first = typed(snap(gateway.nodes))
+        if variant in ("file-replaced", "file-replaced-and-registry-cleared"):
+            other = {77: Node(77, 17, "2.1", sketch_name="restored from backup",
+                              children={4: Child(4, 6, description="from backup", values={0: "21.5"})})}
+            await Persistence(other, path).save()
+            if variant.endswith("cleared"):
+                gateway.nodes.clear()
+            async with gateway:
+                await asyncio.sleep(1)
+                got = typed(snap(gateway.nodes))
+                want77 = typed(snap(other))
+                key77 = next(iter(want77))
+                if got.get(key77) != want77[key77]:
+                    problems.append(("file-not-loaded-on-entry", f"second entry on the same Gateway: the file held node 77, "
+                                                                 f"the registry after entry has {sorted(k[1] for k in got)}"))
+            status, disk = registry_on_disk(path)
+            if status != "ok" or disk != typed(snap(gateway.nodes)):
+                problems.append(("no-final-save", f"after the second session the file is not the registry (file {status})"))
+        else:  # the application forgets every node inside the session
+            async with gateway:
+                await asyncio.sleep(1)
+                gateway.nodes.clear()
+                if variant == "emptied-then-periodic":
+                    await asyncio.sleep(SAVE_BOUND + 5)
+                    status, disk = registry_on_disk(path)
+                    if status != "ok" or disk != {}:
+                        problems.append(("periodic-save-too-late", f"registry emptied by the application: {SAVE_BOUND + 5} "
+                                                                   f"virtual seconds later the file still holds "
+                                                                   f"{disk if status == 'ok' else status!r:.80}"))
+            status, disk = registry_on_disk(path)
+            if status != "ok" or disk != {}:
+                problems.append(("no-final-save", f"the registry was emptied inside the session (it had {len(first)} nodes); "
+                                                  f"after exit the file still holds {len(disk) if status == 'ok' else status} nodes"))
+        for t in [t for t in asyncio.all_tasks() if t is not asyncio.current_task()]:
+            t.cancel()
+        return {"problems": problems, "first": len(first)}
+
+    with install() as seam:
+        if transport_kind == "mqtt-fake" and not seam:
+            return
+        result, _loop = run_virtual(scenario)
+    ctx.case(("changed-file", transport_kind, variant), sample=case)
+    ctx.clause("file-loaded-on-every-entry" if variant.startswith("file") else "emptied-registry-saved")
+    if isinstance(result, LogicalDeadlock):
+        ctx.violation("context-deadlock", f"logical deadlock in {case}", case)
+    elif isinstance(result, BaseException):
+        ctx.violation("second-session-raised", f"{type(result).__name__}: {result!s:.80}", case)
+    else:
+        if not result["first"]:
+            ctx.inconclusive.append("changed-file case: the prepared file loaded to an empty registry")
+        for key, what in result["problems"]:
+            ctx.violation(key, what, case)
+
+
 def multi_loop_sessions_case(ctx, workdir: str, sessions: int, k: int, engine: str) -> None:
     """The same Gateway object entered again under a NEW event loop (an application whose retry loop calls
     asyncio.run(main(gateway)) again after a lost connection).  Each session stays long enough for the saver to park,
@@ -1190,6 +1263,8 @@ def run_case(ctx, case: dict) -> None:
             cancelled_exit_case(ctx, workdir, case["transport"], case["k"], case["cancelled_exit"], case["file"])
         elif "builtin_connect_failure" in case:
             builtin_connect_failure_case(ctx, workdir, case["builtin_connect_failure"])
+        elif "changed_file_between_sessions" in case:
+            changed_file_between_sessions_case(ctx, workdir, case["transport"], case["changed_file_between_sessions"])
         elif "multi_loop_sessions" in case:
             multi_loop_sessions_case(ctx, workdir, case["multi_loop_sessions"], case["k"], case["engine"])
         elif "live_traffic" in case:
@@ -1259,6 +1334,11 @@ def run(ctx) -> None:
                 for k in (0, 1, 3, 8, 20):
                     if ctx.mine():
                         second_session_case(ctx, workdir, transport, k)
+            for i, (transport, variant) in enumerate(itertools.product(
+                    ("scripted", "mqtt-fake"), ("file-replaced", "file-replaced-and-registry-cleared", "emptied",
+                                                "emptied-then-periodic"))):
+                if ctx.mine(i):
+                    changed_file_between_sessions_case(ctx, workdir, transport, variant)
             for i, (engine, sessions, k) in enumerate([("vloop", 2, 0), ("vloop", 3, 2), ("real", 2, 1), ("vloop", 2, 7),
                                                        ("real", 3, 0), ("vloop", 4, 1)]):
                 if ctx.mine(i):
